@@ -49,6 +49,52 @@ theorem stepR_wait_some (s : Sys α) (n : Nat) (h : s.rpc = .wait) (hr : s.pipe.
   rw [h]
   simp [hr]
 
+/-- in a state satisfying the invariant that is not final some process can take a step -/
+theorem enabled_of_inv (c : Cfg) (hv : c.Valid) (payload : List α) (s : Sys α)
+    (hi : Inv c payload s) (hnf : s.final = false) :
+    ∃ a s', a.ok = true ∧ s.step c a = some s' := by
+  obtain ⟨cons, cap, rd, wr, done_imp, closed_imp, nofail⟩ := hi
+  cases hw : s.wpc with
+  | run =>
+    obtain ⟨s', hs⟩ := stepW_run_some c s 1 hw
+    exact ⟨.w 1, s', rfl, hs⟩
+  | failed => exact absurd hw nofail
+  | wait =>
+    cases hrp : s.rpc with
+    | run =>
+      obtain ⟨s', hs⟩ := stepR_run_some s 1 hrp
+      exact ⟨.r 1, s', rfl, hs⟩
+    | done =>
+      have := (done_imp hrp).1
+      simp [hw] at this
+    | wait =>
+      by_cases hc : s.pipe.content.length = 0
+      · have hrw : s.pipe.readyW c = true := by
+          rw [readyW_iff]
+          have := hv.2
+          omega
+        obtain ⟨s', hs⟩ := stepW_wait_some c s 1 hw hrw
+        exact ⟨.w 1, s', rfl, hs⟩
+      · have hrr : s.pipe.readyR = true := by
+          rw [readyR_iff]
+          exact Or.inr hc
+        obtain ⟨s', hs⟩ := stepR_wait_some s 1 hrp hrr
+        exact ⟨.r 1, s', rfl, hs⟩
+  | closed =>
+    cases hrp : s.rpc with
+    | run =>
+      obtain ⟨s', hs⟩ := stepR_run_some s 1 hrp
+      exact ⟨.r 1, s', rfl, hs⟩
+    | done => simp [Sys.final, hw, hrp] at hnf
+    | wait =>
+      have hrr : s.pipe.readyR = true := by
+        rw [readyR_iff]
+        left
+        rw [wr]
+        simp [hw]
+      obtain ⟨s', hs⟩ := stepR_wait_some s 1 hrp hrr
+      exact ⟨.r 1, s', rfl, hs⟩
+
 /-! ### progress measure -/
 
 /-- cost of the writer's control state, given whether its descriptor is ready for writing -/
